@@ -1819,11 +1819,11 @@ func main() {
 		if level < 3 {
 			return rng.Chance(1, 2)
 		}
-		return rng.Chance(1, 4)
+		return rng.Chance(1, run.Pick(4, 5))
 	})
 	run.Count(fmt.Sprintf("sampled-depth-%d-nodes=%d", depth+3, n2))
 
-	for i := 0; i < run.Pick(2400, 32000); i++ {
+	for i := 0; i < run.Pick(2400, 28000); i++ {
 		g.random(20 + rng.Intn(run.Pick(40, 80)))
 		if g.failures > 8 {
 			break
